@@ -18,7 +18,9 @@ RULE = (
     "Hypothesis rule based state machine: histories of up to 8 ingesting "
     "runs (own holder instance, drawn batch size 1..7, 1..6 occurrences over "
     "5 ids) against one sqlite file with the same comparison after every "
-    "run (non-trivial there: >=2 runs with a repeated id). Non-trivial: some batch "
+    "run (non-trivial there: >=2 runs with a repeated id); plus one fixed "
+    "large history (1100 ids, batch size 1000, ingested twice, then again "
+    "with new spans mixed in). Non-trivial: some batch "
     "contains both a duplicate id and a non-duplicate id. Distinct by the "
     "serialised stream + split.")
 ASSUMPTIONS = [
@@ -311,6 +313,25 @@ def run_shard(ctx):
         ctx.count("store_rounds", len(case["events"]) + 1 +
                   (1 if case.get("split") is not None else 0))
         check_case(case)
+    if ctx.shard == 2 % ctx.nshards:
+        # one large history: more than 999 distinct ids in one batch, the
+        # same stream ingested twice (second run: every id is a duplicate),
+        # then once more with a few new spans mixed in
+        evs = [[f"L{k}", None if k % 7 == 0 else f"L{k - 1}", "ABC"[k % 3],
+                f"t{k // 7}", "wf", k, k + 3, "app"] for k in range(1100)]
+        extra = [[f"X{k}", f"L{k}", "A", f"t{k // 7}", "wf", k, k + 1, "app"]
+                 for k in range(5)]
+        big = {"steps": [{"events": evs, "batch": 1000},
+                         {"events": evs, "batch": 1000},
+                         {"events": evs[:600] + extra + evs[600:],
+                          "batch": 2000}]}
+        ctx.record({"steps": "large history, see checks/c10.py"}, True,
+                   ["large_batch_over_999_ids", "stateful"])
+        try:
+            check_steps(big)
+        except Violation as v:
+            ctx.violation(big, "[large history] " + str(v))
+            return
     if ctx.run_given(case_strategy(), fn,
                      150 if ctx.tier == "quick" else 2500, shrinker=shrinker):
         return
